@@ -262,6 +262,10 @@ def deductive(check, tier):
 
 
 def run(check, tier, seed):
+    from pyvc.verify import verify
+    import contracts.valuemodel as VM
+    for c in VM.ALL:            # this property's contracts are stated over the executor's value model of Chunk / FmtStr: the real constructors and
+        verify(c, tier, check, prefix="C17")      # accessors must behave as that model says (same obligations as in C13, decided here too)
     deductive(check, tier)
     bounded(check, tier)
     long_inputs(check, tier)
